@@ -353,6 +353,15 @@ def check_class(run, repo, eff, fr, ci, fams, encs):
             if e.idx > w.idx and e.kind in ('MemRead', 'MemWrite') and not exclusive(e, w):
                 bad('C03-O', '%s after base write-back' % e.kind, 'the base register is written back before the memory access `%s`: an abort '
                     'raised by the access must leave the base unchanged' % e.text()[:100])
+    for w in tr.events:
+        if w.kind != 'CpsrWriteByInstr':
+            continue
+        for e in tr.events:
+            if e.idx > w.idx and not exclusive(e, w) and ((e.kind in ('RegRead', 'RegWrite') and e.d['idx'] == base_idx) or
+                                                           e.kind in ('MemRead', 'MemWrite')):
+                bad('C03-O', '%s after the CPSR restore' % e.kind, 'the base register / memory is accessed after cpsr_write_by_instr: the restored '
+                    'mode selects another register bank (SP) and other access permissions, so the write-back lands in the wrong bank')
+                break
     if fam.load and looped and not user:
         in_list = lambda t: norm(t) == ('call', 'bit_at', (REGS, base_idx))
         for e in tr.events:
